@@ -60,7 +60,8 @@ func Harness_C14_selection() {
 	}
 	zz.Bound("name_len_max", 2+extra)
 	env := zz.NondetString("env", 2+extra)
-	dataset := zz.NondetString("dataset", 1+extra)
+	// the dataset is one byte longer than the prefix so that "dataset starts with prefix." is in reach
+	dataset := zz.NondetString("dataset", 2+extra)
 	prefix := zz.NondetString("prefix", 1+extra)
 	name1 := zz.NondetString("samplerName1", 3)
 	hasDefault := zz.NondetBool("hasDefault")
